@@ -24,7 +24,7 @@ CLAIMS = {
             "every older object's denotation, for every history (induction over the operation list); the __init__ guard is read from the "
             "source. Differential run over trees and object histories (identity-aware).",
             "DESIGN.md section 7 C02"),
-    "C03": ("13 theorems (ValidaProofs/C03.lean): the level-by-level frontier walk of DataPath.get_data with its two parallel lists equals "
+    "C03": ("16 theorems (ValidaProofs/C03.lean, C03Entry.lean): entry points - a path bound to a truthy document resolves in it whatever the argument, a falsy bound document falls back to the argument, no document at all is a ValueError; the level-by-level frontier walk of DataPath.get_data with its two parallel lists equals "
             "the depth-first part-by-part walk (ValidaSpec/Walk.lean) for every path length and fan-out (induction over the parts, "
             "generalised over the frontier), the lock-step index never fails, inapplicable parts match nothing, a step raises nothing, "
             "primitive parts match by key/index equality. The except-tuple of get_data is generated from the source. Differential run "
